@@ -446,4 +446,69 @@ theorem vAggr_viral (s : VSpec) (spec : AggSpec) (x res : DS) (h : vAggr s spec 
     rw [hl]
     exact hval
 
+/-! ### analytic partitions -/
+
+theorem vPartRow_key (vs : VSpec) (ids ps : List String) (rows : List Row) (r r' : Row)
+    (h : vPartRow vs ids ps rows r = .ok (some r')) : r'.key ids = r.key ids := by
+  unfold vPartRow at h
+  obtain ⟨g, _, h⟩ := (bindOk _ _ _).1 h
+  simp only [pure, Except.pure, Except.ok.injEq, Option.some.injEq] at h
+  subst h
+  exact key_proj_append r ids ids g (fun i hi => hi)
+
+/-- plug-in lemma for `C10.evalD_WF`. -/
+theorem vPartition_WF (s : VSpec) (ps : List String) (x r : DS) (w : x.WF) (h : vPartition s ps x = .ok r) : r.WF := by
+  unfold vPartition at h
+  split at h
+  · cases h
+  · obtain ⟨rows, hr, h⟩ := (bindOk _ _ _).1 h
+    simp only [pure, Except.pure, Except.ok.injEq] at h
+    subst h
+    exact mapRows_WF _ x.ids x.ids x.rows rows hr (fun r r' _ hf => vPartRow_key _ x.ids ps x.rows r r' hf) w
+
+/-- plug-in lemma for `C33.evalD_perm`, for ORDER-FREE rules (see `vAggr_perm`). -/
+theorem vPartition_perm (s : VSpec) (hs : ∀ p ∈ s, OrderFree p.2) (ps : List String) (x y : DS) (_ : x.WF)
+    (h : DSEquiv x y) : Rel2 DSEquiv (vPartition s ps x) (vPartition s ps y) := by
+  unfold vPartition
+  rw [← h.1]
+  split
+  · exact Rel2.error _ _
+  · have hf : vPartRow (viralOf s x) x.ids ps x.rows = vPartRow (viralOf s y) x.ids ps y.rows := by
+      funext r
+      unfold vPartRow
+      rw [← viralOf_congr s x y h.2.1,
+        groupVals_perm (viralOf s x) (fun p hp => hs p (List.mem_filter.1 hp).1) (members_perm ps h.2.2 (r.key ps))]
+    rw [hf]
+    refine Rel2.bind (P := Perm) (mapRows_perm _ h.2.2) ?_
+    intro rows rows' hrr
+    exact Rel2.pure ⟨rfl, by rw [viralOf_congr s x y h.2.1], hrr⟩
+
+/-- **analytic invocations**: every datapoint is kept, and its viral value is the rule applied to the viral values of
+exactly the datapoints of its partition. -/
+theorem vPartition_viral (s : VSpec) (ps : List String) (x res : DS) (h : vPartition s ps x = .ok res) (hn : s.names.Nodup)
+    (p : String × Rule) (hp : p ∈ viralOf s x) (hid : p.1 ∉ x.ids) :
+    ∀ r' ∈ res.rows, ∃ r ∈ x.rows, r'.key x.ids = r.key x.ids ∧
+      group p.2 ((members ps x.rows (r.key ps)).map (·.get p.1)) = .ok (r'.get p.1) := by
+  unfold vPartition at h
+  split at h
+  · cases h
+  · obtain ⟨rows, hr, h⟩ := (bindOk _ _ _).1 h
+    simp only [pure, Except.pure, Except.ok.injEq] at h
+    subst h
+    intro r' hr'
+    obtain ⟨r, hrm, hf⟩ := (mapRows_mem _ _ _ hr r').1 hr'
+    refine ⟨r, hrm, vPartRow_key _ x.ids ps x.rows r r' hf, ?_⟩
+    unfold vPartRow at hf
+    obtain ⟨g, hg, hf⟩ := (bindOk _ _ _).1 hf
+    simp only [pure, Except.pure, Except.ok.injEq, Option.some.injEq] at hf
+    subst hf
+    unfold groupVals at hg
+    obtain ⟨val, hval, hl⟩ := mapM_named_lookup
+      (fun p => group p.2 ((members ps x.rows (r.key ps)).map (·.get p.1))) (·.1) _ g hg
+      (viralOf_names_nodup s x hn) p hp
+    rw [get_proj_append_not_mem r x.ids g p.1 hid]
+    unfold Row.get
+    rw [hl]
+    exact hval
+
 end VtlModel.Sem
